@@ -46,6 +46,36 @@ CLAIMED = {
             "on all small heaps with sharing; recorded intern events are checked clause by clause by TraceHash.", TB, "5 C24"),
 }
 
+
+def _rp(pid, what, note_extra=""):
+    CLAIMED[pid] = ("run", "TLC trace validation: Interp.tla re-executed on recorded runs + relation between recorded variants decided by TraceRun.tla",
+                    run_text(what), RUNNOTE + note_extra, "5 " + pid)
+
+_rp("C02", "the budget relations between the recorded variants of each case (budgets C-1, C, C+1, 2C+7, 1, 2^64-1 and random ones against the unlimited run): success implies cost <= M and the same result/cost, every failing smaller budget fails with CostExceeded, M >= C succeeds and M < C fails unless the specification saw a cost-exempt guard, and succeeding budgets are upward closed")
+_rp("C03", "that the recorded outcome is identical for a fresh allocator, an allocator with unrelated earlier allocations and runs (failed runs, validated BLS points), and a program/environment rebuilt with every atom as concat-of-halves heap bytes or as a substring view")
+_rp("C04", "that the recorded result, cost, error message and the three allocator counters are identical with and without ENABLE_GC")
+_rp("C07", "that a success under F+restriction flags (random subsets, and MEMPOOL_MODE) implies the same success under F, and a success under F implies the same success under F+RELAXED_BLS")
+_rp("C08", "that whenever the extension-aware dialect succeeds, the recorded run of an extension-unaware wrapper dialect (no softfork extension known, 4-byte secp opcodes unassigned) succeeds with the same result, cost and allocator counters")
+_rp("C11", "that when both cost models succeed the recorded result trees are identical")
+_rp("C23", "that the recorded cost of (sha256tree (q . X)) is less than that of the ChiaLisp sha256tree program on X under both cost models (both runs re-executed by the machine)")
+_rp("C25", "that no recorded run (ChiaDialect, unaware wrapper, RuntimeDialect; all flag sets; random budgets) panics or reports InternalError", " Level is closer to exploration: the specification adds the conformance check of every returned outcome.")
+_rp("C30", "that RuntimeDialect with the standard table gives the same outcome as ChiaDialect (flags minus ENABLE_GC/DISABLE_OP) on every run in which the specification machine saw no guard and no operator outside the table")
+_rp("C31", "on the guard_enter/guard_exit events of the cfg-guarded hook that a completed guard leaves nil, restores the three counters to their values at entry and has consumed exactly its declared cost unless it is cost-exempt")
+CLAIMED["C05"] = ("run", "TLC comparison (TraceSame.tla) of traces recorded by three separately built harness binaries + TLC trace validation of the default build",
+    "The default, no-fastpath and counters+pre-eval (observe-only callback) builds of the harness record the same seeded cases (fast-path-biased programs, direct operator calls); TLC requires the three traces to be identical line by line (result, cost, error message, counters) and validates the default build's runs against Interp.tla.",
+    RUNNOTE, "5 C05")
+OPSNOTE = TB + "Cryptographic operators and bignum operands above the evaluation caps of Ops.tla are abstained (counted)."
+CLAIMED["C06"] = ("ops", "TLC trace validation of direct operator calls against Ops.tla + pair relation decided by TraceOps.tla",
+    "div, divmod, mod, modpow (and other operators) are called through ChiaDialect::op with and without MALACHITE on the same arguments, flags and budget; TLC re-evaluates each call with Ops.tla (which has no notion of a backend) and requires the two recorded outcomes (value, cost, error kind) to be identical.", OPSNOTE, "5 C06")
+CLAIMED["C09"] = ("ops", "TLC trace validation of op_unknown calls against the code's rule and against the published rule (OpUnknownPublished)",
+    "Unknown opcodes (0-6 bytes over a boundary alphabet, argument lengths up to 2^20 carried symbolically, pairs, strict mode, budgets around the cost, both cost models) are called through ChiaDialect::op; TLC decides each call with the published rule (exact product); the pre-hard-fork wrapping product is known finding F4.", OPSNOTE, "5 C09")
+CLAIMED["C10"] = ("ops", "TLC trace validation of operator calls against the cost formulas of Ops.tla (which reproduce every pinned op-tests cost)",
+    "Every op-tests vector under its flag sets plus random argument lists per operator (budgets at C-1/C/C+1, both cost models, accumulator-size stress) are re-evaluated by Ops.tla in TLC; a successful call whose cost or value differs, or a differing budget verdict, is a violation.", OPSNOTE, "5 C10")
+CLAIMED["C17"] = ("serdebr", "TLC model checking of decoder machines and serializer relation + case replay + TLC trace validation",
+    "SerBackrefs.tla: vec-stack decoder, legacy decoder, length probe as machines, declarative DecodeBR, serializer as a relation (plus an exact model of the path search as diagnostic); MCSerBackrefs checks every relation output decodes back, is canonical and not longer than classic; recorded serializer outputs are checked by TraceSerBackrefs (decodes to the tree, canonical, length, run-to-run equality, re-serialization).", TB, "5 C17")
+CLAIMED["C18"] = ("serdebr", "TLC model checking (three decoder machines in lockstep) + case replay + TLC trace validation",
+    "The current decoder, the legacy decoder and the length probe are three machines of SerBackrefs.tla run in lockstep on all structured byte strings up to 8 bytes (same accept set, tree, pair count incl. ghost pairs, probe = consumed); every case is replayed into the implementation; recorded decoder calls on generated/mutated inputs are validated by TraceSerBackrefs.", TB, "5 C18")
+
 NOT_YET = "not claimed yet in this round: the specification module / engine for it is still being built (DESIGN.md A.7)"
 NA = {
     "C32": "agreement with independent implementations of BLS12-381/secp/keccak cannot be decided by a TLA+ specification, and no independent library (py_ecc, python-ecdsa, pycryptodome) is installed; see DESIGN.md section 6",
